@@ -1,5 +1,41 @@
-import Secp.Hand.History
-/-! # C18 — placeholder: theorems are being added in this session -/
+import Secp.Proofs.RandomSpec
+/-!
+# C18 — random scalars are non-zero, canonical and correct for every entropy stream
+
+Model of the code: `Hand.Scalar.random s` — the loop `for IsFEZero(&m) == 1 { io.ReadFull(rand.Reader, buf);
+Reduce; ToMontgomery }` over the generated `Reduce`, `ToMontgomery`, `IsFEZero`. The randomness source is modelled as
+the byte string `s` it delivers before failing; `io.ReadFull` assembles 32 bytes whatever the chunking of the reads
+and fails (→ `panic`, modelled as `none`) when the source ends first (the `io.ReadFull` contract: trusted). The list is
+the fuel of the loop: the real loop terminates exactly when the stream contains an acceptable block or fails, as the
+property says. Tied to the code by the family `RND`: `crypto/rand.Reader` is replaced by a scripted reader.
+`blockVal s j` is the big-endian value of the `j`-th 32-byte block.
+-/
 namespace C18
-theorem model_is_total : True := trivial
+open Spec
+
+/-- **C18** -/
+theorem random_spec (s : Bytes) (hb : IsBytes s) :
+    (∀ m c, Hand.Scalar.random s = (some m, c) →
+      ∃ k, 32 * (k + 1) ≤ s.length ∧ c = 32 * (k + 1) ∧ (∀ j, j < k → blockVal s j % N = 0) ∧
+        blockVal s k % N ≠ 0 ∧ sOk m ∧ (sVal m).val = blockVal s k % N ∧ 1 ≤ (sVal m).val ∧ (sVal m).val ≤ N - 1) ∧
+    (∀ c, Hand.Scalar.random s = (none, c) → ∀ j, 32 * (j + 1) ≤ s.length → blockVal s j % N = 0) :=
+  _root_.random_spec s hb
+
+/-- one conditional subtraction suffices: `2^256 < 2n`, so `Reduce` maps every 32-byte block to its residue mod n -/
+theorem one_subtraction_suffices : 2 ^ 256 < 2 * N := by decide
+
+/-- a failing source can only produce a panic, never a weak value: whenever a value is returned it is a block of
+the stream, reduced, and non-zero -/
+theorem never_zero (s : Bytes) (hb : IsBytes s) (m : L4) (c : Nat) (h : Hand.Scalar.random s = (some m, c)) :
+    sVal m ≠ 0 := by
+  obtain ⟨k, _, _, _, _, _, _, h1, _⟩ := (_root_.random_spec s hb).1 m c h
+  intro h0
+  rw [h0] at h1
+  simp at h1
+
+-- non-vacuity: a stream whose first block is n (skipped) and whose second block is 5 (accepted)
+example : IsBytes (i2osp N 32 ++ i2osp 5 32) := by
+  intro x hx
+  rcases List.mem_append.mp hx with h | h <;> exact i2osp_isBytes _ _ x h
+
 end C18
